@@ -44,21 +44,22 @@ type Policy interface {
 
 // Sched is one simulation's scheduler state. Exactly one may be installed at a time per process.
 type Sched struct {
-	mu      sync.Mutex
-	byGoid  map[uint64]*G
-	parked  map[string]*G
-	runner  *G
-	policy  Policy
-	wake    chan struct{}
-	Hooks   uint64 // hooks passed by the runner
-	Preempt uint64 // preemptions taken
-	Parks   uint64
-	AnonHit uint64 // hooks reached by unregistered goroutines (should stay 0 apart from the driver)
-	rootN   int
-	free    atomic.Bool // free-run: hooks become no-ops (used for end-of-run cleanup)
-	Log     func(kind, id, site string)
-	driver  uint64 // goid of the driver (bubble root)
-	SiteHit map[string]uint64
+	mu        sync.Mutex
+	byGoid    map[uint64]*G
+	parked    map[string]*G
+	runner    *G
+	policy    Policy
+	wake      chan struct{}
+	Hooks     uint64 // hooks passed by the runner
+	Preempt   uint64 // preemptions taken
+	Parks     uint64
+	AnonHit   uint64 // hooks reached by unregistered goroutines (should stay 0 apart from the driver)
+	rootN     int
+	free      atomic.Bool // free-run: hooks become no-ops (used for end-of-run cleanup)
+	Log       func(kind, id, site string)
+	driver    uint64        // goid of the driver (bubble root)
+	observing atomic.Uint64 // goid currently inside the Observer callback (its hooks are no-ops)
+	SiteHit   map[string]uint64
 }
 
 var cur atomic.Pointer[Sched]
@@ -81,8 +82,8 @@ func Install(p Policy) *Sched {
 // Current returns the installed scheduler (nil if none).
 func Current() *Sched { return cur.Load() }
 
-// Uninstall removes the active scheduler.
-func Uninstall() { cur.Store(nil) }
+// Uninstall removes the active scheduler (and any observer).
+func Uninstall() { cur.Store(nil); Observer = nil }
 
 // Active reports whether a scheduler is installed and not in free-run mode.
 func Active() bool {
@@ -224,6 +225,37 @@ func Exit() {
 	}
 }
 
+// Observer, when set by a harness, is called right after every mutating atomic operation of the
+// code under test, on the goroutine that performed it (the runner), with scheduling hooks disabled
+// for the duration of the call. It gives the harness an exact trace of a shared register (such as
+// the connection state) even when several changes happen between two driver steps.
+var Observer func()
+
+// Observe invokes the Observer (no-op when none is installed or no scheduler is active).
+func Observe() {
+	f := Observer
+	if f == nil {
+		return
+	}
+	s := cur.Load()
+	if s == nil || s.free.Load() {
+		return
+	}
+	me := goid()
+	if s.observing.Load() == me {
+		return
+	}
+	s.mu.Lock()
+	g := s.byGoid[me]
+	s.mu.Unlock()
+	if g == nil {
+		return // the driver and unregistered goroutines are not observed
+	}
+	s.observing.Store(me)
+	f()
+	s.observing.Store(0)
+}
+
 // Yield is the scheduling point placed before (and after) every instrumented operation.
 func Yield(site string) {
 	s := cur.Load()
@@ -231,6 +263,9 @@ func Yield(site string) {
 		return
 	}
 	me := goid()
+	if s.observing.Load() == me {
+		return
+	}
 	s.mu.Lock()
 	g := s.byGoid[me]
 	if g == nil {
